@@ -63,3 +63,39 @@ Proof.
   exists p. repeat split; [exact Hpr|exact Hpss|exact Hf| |exact H2|exact H].
   pose proof (ro_range _ Hok r Hr). lia.
 Qed.
+
+(* ------------------------------------------------------------------ rows_okb is a sound checker of rows_ok *)
+From Coq Require Import Sorting.Sorted Relations.Relation_Definitions Classes.RelationClasses.
+
+Definition row_step (a b : row) : Prop :=
+  r_file a < r_file b \/ (r_file a = r_file b /\ r_start a < r_start b /\ r_end a < r_end b).
+
+Lemma row_step_trans : Transitive row_step.
+Proof. intros a b c H1 H2. unfold row_step in *. lia. Qed.
+
+Lemma chainb_sorted : forall l, chainb l = true -> Sorted row_step l.
+Proof.
+  induction l as [|a [|b t] IH]; intros H; [constructor|constructor; constructor|].
+  cbn [chainb] in H. destruct (row_stepb a b) eqn:E; [|discriminate].
+  constructor; [exact (IH H)|]. constructor. unfold row_stepb in E. unfold row_step.
+  rewrite orb_true_iff, !andb_true_iff, !Nat.ltb_lt, Nat.eqb_eq in E. tauto.
+Qed.
+
+Theorem rows_okb_ok rows : rows_okb rows = true -> rows_ok rows.
+Proof.
+  unfold rows_okb. destruct (forallb (fun r => r_start r <=? r_end r) rows) eqn:Er; [|discriminate]. intros Hc.
+  pose proof (Sorted_StronglySorted row_step_trans (chainb_sorted rows Hc)) as Hss.
+  rewrite forallb_forall in Er.
+  assert (Hlt : StronglySorted row_lt rows).
+  { clear -Hss. induction Hss as [|x l Hs IH Hall]; constructor; [exact IH|].
+    rewrite Forall_forall in *. intros y Hy. specialize (Hall y Hy). unfold row_step in Hall. unfold row_lt. lia. }
+  constructor; [exact Hlt| |].
+  - intros r Hr. apply Nat.leb_le. exact (Er r Hr).
+  - intros a b Ha Hb Hf Hs.
+    assert (Hpair : forall l, StronglySorted row_step l -> In a l -> In b l -> r_end a < r_end b).
+    { induction 1 as [|x l Hsl IH Hall]; intros Ha' Hb'; [contradiction|]. rewrite Forall_forall in Hall.
+      destruct Ha' as [<-|Ha'], Hb' as [<-|Hb']; [lia| | |exact (IH Ha' Hb')].
+      - specialize (Hall b Hb'). unfold row_step in Hall. lia.
+      - specialize (Hall a Ha'). unfold row_step in Hall. lia. }
+    exact (Hpair rows Hss Ha Hb).
+Qed.
